@@ -72,6 +72,10 @@ def scalar_catalogue(tier, rnd):
                 cat.append(('int', t, c))
                 if n == 2:
                     cat.append(('int', T('not', 0, [t]), '!' + c))
+    # explicitly typed set predicates (the first template argument disambiguates overloads)
+    for name in ('any_of', 'all_of', 'none_of'):
+        cat.append(('int', T(name, 0, [T('val', 0), T('ge', 2)]), 'trompeloeil::%s<int>(0, trompeloeil::ge(2))' % name))
+        cat.append(('int', T(name, 0, [T('lt', 1), T('ne', 0)]), 'trompeloeil::%s<int>(trompeloeil::lt(1), trompeloeil::ne<int>(0))' % name))
     # nested combinators (depth 3 sample)
     L2 = [(t, c) for k, t, c in cat if k == 'int' and t['k'] in ('not', 'any_of', 'all_of', 'none_of')]
     for _ in range(60 if tier == 'quick' else 600):
@@ -92,6 +96,9 @@ def scalar_catalogue(tier, rnd):
             cat.append(('str', T(k, v), 'trompeloeil::%s(std::string("%s"))' % (k, s)))
             cat.append(('str', T('not', 0, [T(k, v)]), '!trompeloeil::%s(std::string("%s"))' % (k, s)))
     cat.append(('str', T('val', 1), 'std::string("a")'))
+    for k in ('eq', 'lt', 'ge'):
+        cat.append(('str', T(k, 1), 'trompeloeil::%s<std::string const&>(std::string("a"))' % k))
+        cat.append(('str', T(k, 1), 'trompeloeil::%s("a")' % k))          # string literal operand against a std::string argument
     # regular expressions: accept <=> non-null and found (found = independent std::regex_search in the driver)
     for pat, flags in (('a', ''), ('^b', ''), ('A', 'std::regex_constants::icase'), ('b$', ''), ('a.*b', ''),
                        ('^$', ''), ('.*', ''), ('a*', ''), ('^(ab)?$', ''), ('', '')):        # patterns that are found in the empty string
@@ -99,6 +106,8 @@ def scalar_catalogue(tier, rnd):
         cat.append(('cstr:' + pat + ':' + flags, T('re'), 'trompeloeil::re(%s)' % arg))
         cat.append(('cstr:' + pat + ':' + flags, T('not', 0, [T('re')]), '!trompeloeil::re(%s)' % arg))
         cat.append(('sstr:' + pat + ':' + flags, T('re'), 'trompeloeil::re(%s)' % arg))
+        cat.append(('sstr:' + pat + ':' + flags, T('re'), 'trompeloeil::re<std::string const&>(%s)' % arg))
+        cat.append(('cstr:' + pat + ':' + flags, T('re'), 'trompeloeil::re<char const*>(%s)' % arg))
     return cat
 
 # ----- range terms
@@ -139,6 +148,9 @@ def range_catalogue(tier, rnd):
     for k in QKINDS:
         for e in ELEMS + MELEMS_DISJOINT + MELEMS_OVERLAP + [(T('not', 0, [T('eq', 1)]), '!trompeloeil::eq(1)')]:
             cat.append(('elem', T(k, 0, [e[0]]), 'trompeloeil::%s(%s)' % (k, e[1])))
+    # explicitly typed range matchers
+    for k in RKINDS:
+        cat.append(('elem', T(k, 0, [ELEMS[1][0], ELEMS[2][0]]), 'trompeloeil::%s<std::vector<int> const&>(1, 2)' % k))
     # negated range matchers
     for k in RKINDS[:3]:
         cat.append(('elem', T('not', 0, [T(k, 0, [ELEMS[0][0], ELEMS[1][0]])]), '!trompeloeil::%s(0, 1)' % k))
